@@ -17,7 +17,7 @@ def main():
     if a.tier == "thorough":
         run_cases(chk, "vlib.exprcheck", "expr_case", [n for n in names if "nonlinear" not in n], {"tier": a.tier, "scalar": "complex128"}, a.jobs)
     chk.encoded("generated tabulate_tensor_expression_* C text and ufcx_expression initialisers (ffcx.analysis._analyze_expression, ir.representation._compute_expression_ir, expression_generator)")
-    chk.bounds = {"programs": len(names), "points": "fixed per expression (they are part of the compiled object)", "facet expressions": "every local facet; permutation codes 0/1 on interval facets, 0 on 2-D facets",
+    chk.bounds = {"programs": len(names), "points": "fixed per expression (they are part of the compiled object)", "facet expressions": "every local facet x every permutation code (2 on interval, 6 on triangle, 8 on quadrilateral facets; a covering subset in quick)",
                   "inputs": "all w, c, coordinate_dofs symbolic"}
     chk.assumptions = ["exact arithmetic", "UFL lowering sequence for expressions as documented (harness-side)", "descriptor fields are concrete comparisons (no solver)",
                        "one reflection of an interval facet maps p to 1-p"]
